@@ -3,7 +3,8 @@ truncation point of small streams (exhaustive per stream); random bursts on larg
 PID = "C07"
 PARALLEL = {"C07": 8}
 RULE = ("round trips: random streams of 0..6 batches (0..9 rows, incl. empty batches) over 1-3 columns of the kind universe "
-        "(built-in ints/floats/strings/bytes/bools, gob structs/pointers/slices/arrays, a custom-codec column), random "
+        "(built-in ints/floats/strings/bytes/bools, gob structs with some or all fields zero, pointers, slices, arrays, maps, a "
+        "custom-codec column; a third of the composite values are zero values), random "
         "destination sizes 1..12; damage: for small streams every single-bit flip and every truncation point "
         "(one case per stream enumerates all positions: exhaustive for that stream), random single flips, truncations "
         "and 2..6 byte bursts on larger streams; non-trivial = at least two batches or damage")
@@ -13,7 +14,8 @@ ASSUMPTIONS = ["gob cannot encode nil pointer elements: pointer columns carry no
                "damage that changes gob's own framing is covered by enumeration, not by a theorem (BS.Codec abstracts a batch "
                "as intact or damaged)"]
 
-KINDS = ["i64", "i32", "i16", "i8", "u8", "u16", "u32", "u64", "int", "str", "f64", "f32", "bool", "bytes", "st", "pt", "sl", "arr", "cc"]
+KINDS = ["i64", "i32", "i16", "i8", "u8", "u16", "u32", "u64", "int", "str", "f64", "f32", "bool", "bytes", "st", "pt", "sl", "arr", "cc", "mp",
+         "st", "sl", "mp"]   # gob-decoded composite kinds twice: they are decoded into (possibly reused) memory
 
 
 def gen_stream(r, maxb, maxrows):
@@ -23,7 +25,8 @@ def gen_stream(r, maxb, maxrows):
     for _ in range(r.rng(0, maxb)):
         rows = []
         for _ in range(r.choice([0, 1, 1, 2, 3, r.rng(0, maxrows)])):
-            rows.append(",".join(str(r.below(2) if k == "bool" else (r.rng(1, 90) if k == "pt" else r.rng(0, 90))) for k in kinds))
+            rows.append(",".join(str(r.below(2) if k == "bool" else (r.rng(1, 90) if k == "pt" else
+                                     (r.choice([0, 0, r.rng(0, 90)]) if k in ("st", "sl", "mp", "bytes", "str") else r.rng(0, 90)))) for k in kinds))
         bs.append("B " + "|".join(rows) if rows else "B")
     dest = " ".join(str(r.rng(1, 12)) for _ in range(r.rng(1, 3)))
     return "K %s ; %s ; DEST %s" % (",".join(kinds), " ; ".join(bs) if bs else "B", dest)
